@@ -122,7 +122,7 @@ class PolyChordOptimizer(Optimizer):
 
         self.warning('Store the polychord results')
         NEST_out = {'solutions': {}}
-        data = np.loadtxt(os.path.join(self.dir_polychord, '1-.txt'))
+        data = np.loadtxt(os.path.join(self.dir_polychord, '1-.txt'), ndmin=2)
 
         # self.get_poly_cluster_number(self.dir_polychord)
         NEST_stats = self.get_poly_stats(self.dir_polychord)
@@ -147,16 +147,14 @@ class PolyChordOptimizer(Optimizer):
                 # cycle through clusters
                 for midx in range(num_clusters):
                     data = np.loadtxt(os.path.join(
-                        self.dir_polychord, 'clusters/1-_{0}.txt'.format(midx+1)))
+                        self.dir_polychord, 'clusters/1-_{0}.txt'.format(midx+1)),
+                        ndmin=2)
                     modes_array.append(data[:, 2:num_fit_params+2])
                     modes_weights.append(data[:, 0])
         else:
             # Get chains directly from file 1-.txt
             modes_array = [data[:, 2:num_fit_params+2]]
             modes_weights = [data[:, 0]]
-
-        modes_array = np.asarray(modes_array)
-        modes_weights = np.asarray(modes_weights)
 
         for nmode in range(num_clusters):
 
@@ -233,23 +231,28 @@ class PolyChordOptimizer(Optimizer):
 
         # opening cluster files (or global file if no clustering) and get MAP, mean, sigma for parameters
         if self.do_clustering:
-            for midx in range(num_clusters):
-                # cycling through cluster files
-                data = np.loadtxt(os.path.join(
-                    self.dir_polychord, 'clusters/1-_{0}.txt'.format(midx+1)))
-                # find maximum likelihood index
-                mL_idx = np.where(data[:, 1] == np.min(data[:, 1]))
-                stats['modes'][midx]['maximum a posterior'] = {}
-                stats['modes'][midx]['mean'] = {}
-                stats['modes'][midx]['sigma'] = {}
-                for idx in range(len(self.fit_names)):
-                    # cycle through parameters
-                    # maximum likelihood values
-                    stats['modes'][midx]['maximum a posterior'][idx] = data[mL_idx, 2+idx]
-                    # weighted average and sigma
-                    mu, sig = weighted_avg_and_std(data[:, 2+idx], data[:, 0])
-                    stats['modes'][midx]['mean'][idx] = mu
-                    stats['modes'][midx]['sigma'][idx] = sig
+            sample_files = ['clusters/1-_{0}.txt'.format(midx+1)
+                            for midx in range(num_clusters)]
+        else:
+            sample_files = ['1-.txt']
+
+        for midx, sample_file in enumerate(sample_files):
+            # cycling through cluster files
+            data = np.loadtxt(os.path.join(self.dir_polychord, sample_file),
+                              ndmin=2)
+            # find maximum likelihood index (a single sample)
+            mL_idx = np.argmin(data[:, 1])
+            stats['modes'][midx]['maximum a posterior'] = {}
+            stats['modes'][midx]['mean'] = {}
+            stats['modes'][midx]['sigma'] = {}
+            for idx in range(len(self.fit_names)):
+                # cycle through parameters
+                # maximum likelihood values
+                stats['modes'][midx]['maximum a posterior'][idx] = data[mL_idx, 2+idx]
+                # weighted average and sigma
+                mu, sig = weighted_avg_and_std(data[:, 2+idx], data[:, 0])
+                stats['modes'][midx]['mean'][idx] = mu
+                stats['modes'][midx]['sigma'][idx] = sig
 
         return stats
 
